@@ -100,8 +100,13 @@ Theorem C05_src_scan_outcome_roundtrip : forall m pad av, in_i32 pad = true -> i
 Proof. exact src_scan_pack_roundtrip. Qed.
 Print Assumptions C05_src_scan_outcome_roundtrip.
 
-Theorem C05_src_create : forall m tl, in_i32 (tl - 1) = true -> src_img_term_length_mask m tl = Ok (tl - 1).
-Proof. exact src_img_term_length_mask_eq. Qed.
+Theorem C05_src_create : forall m bits, 0 <= bits <= 30 ->
+  src_img_term_length_mask m (2 ^ bits) = Ok (2 ^ bits - 1) /\
+  src_img_position_bits_to_shift m (2 ^ bits) = Ok (bits_of (2 ^ bits)).
+Proof. intros m bits H. split; [|exact (src_img_position_bits_to_shift_eq m bits H)].
+  apply src_img_term_length_mask_eq.
+  assert (1 <= 2 ^ bits <= 2 ^ 30) by (split; [change 1 with (2 ^ 0)|]; apply Z.pow_le_mono_r; lia).
+  change (2 ^ 30) with 1073741824 in *. unfold in_i32, two31. lia. Qed.
 Print Assumptions C05_src_create.
 
 Example C05_src_example :
